@@ -30,6 +30,12 @@ def apiRecord (r : Record) : List Verdict × List String :=
     dec (match (if fn = "fill_le_bytes" then fullBuf (g 0) (g 1) else FrameBuf.withSize (g 0) (g 1)) with
       | none => false
       | some fb => match fb.fillLeBytes (List.replicate (g 2) 0x5a) (g 3) with | .ok _ => true | .error _ => false)
+  | "fill_after_resize" =>   -- a = [ch, n, m, len, k]: the buffer has size m after the resize; k = 0: integer delivery
+    dec (match FrameBuf.withSize (g 0) (g 2) with
+      | none => false
+      | some fb =>
+        if g 4 = 0 then (match fb.fillInterleaved (List.replicate (g 3) 2) with | .ok _ => true | .error _ => false)
+        else (match fb.fillLeBytes (List.replicate (g 3 * g 4) 0x5a) (g 4) with | .ok _ => true | .error _ => false))
   | "context_fill_le_bytes" => dec (ctxFillLeBytesOk (g 0) (g 3))
   | "frame_number" =>
     dec (match fullBuf 2 64 with
@@ -54,6 +60,7 @@ def apiRecord (r : Record) : List Verdict × List String :=
   | "bps" => dec (encodeStreamArgsOk 64 2 (g 0) 44100)
   | "rate" => dec (encodeStreamArgsOk 64 2 16 (g 0))
   | "sample" => dec false   -- a 16-bit stream holding a sample outside the 16-bit range: `verifySamples` fails for its block
+  | "bad_blocks" => dec false   -- the first `g 0` blocks each hold a sample outside the 16-bit range: the first of them fails
   | "byte_width" => dec (ctxFillLeBytesOk (g 0) (g 1) && decide (1 ≤ g 1 ∧ g 1 ≤ 4))
   | f => ([.skip s!"unknown-api-fn-{f}"], [])
 
